@@ -4,10 +4,11 @@ From C07 Require Import Gen Model ModelNet2 ListLemmas NetProofs.
 Local Open Scope N_scope.
 
 (* ------------------------------------------------------------------ Art-Net *)
-Lemma artnet_roundtrip seq phys addr net f old :
+Lemma artnet_roundtrip_gen seq phys addr net pa f old :
   1 <= len f -> len f <= 512 -> addr < 256 -> net < 256 ->
   exists p, artnet_build seq phys addr net f = Some p /\
-            artnet_handle p net addr old = R2 (RHandled (expect_artnet f)).
+            artnet_handle p net pa old =
+              if addr =? pa then R2 (RHandled (expect_artnet f)) else R2 RDropped.
 Proof.
   intros H1 H2 Ha Hn. unfold artnet_build.
   destruct (N.eqb_spec (len f) 0) as [X|_]; [lia|].
@@ -38,13 +39,24 @@ Proof.
   replace (rd (h ++ d) (10 + 4)) with (Some (u8 addr)) by reflexivity.
   replace (rd (h ++ d) (10 + 6)) with (Some ((L / 256) mod 256)) by reflexivity.
   replace (rd (h ++ d) (10 + 6 + 1)) with (Some (L mod 256)) by reflexivity.
-  change (14 =? 14) with true. cbn [negb]. rewrite !u8_id by lia. rewrite !N.eqb_refl. cbn [negb].
+  change (14 =? 14) with true. cbn [negb]. rewrite !u8_id by lia. rewrite (N.eqb_refl net). cbn [negb].
+  destruct (N.eqb_spec addr pa) as [_|_]; [|reflexivity].
   rewrite (N.mul_comm ((L / 256) mod 256) 256), be16_join by lia.
   replace (18 + L - 10 - 8) with L by lia. rewrite N.min_id, u16_id by lia.
   assert (SL : slice (h ++ d) (10 + 8) L = d) by (unfold L; apply slice_app_exact0).
   rewrite SL. change (len d) with L. rewrite N.eqb_refl.
   unfold buf_set, expect_artnet. rewrite take_all by (unfold DMX_UNIVERSE_SIZE; exact Ld2).
   reflexivity.
+Qed.
+
+Lemma artnet_roundtrip seq phys addr net f old :
+  1 <= len f -> len f <= 512 -> addr < 256 -> net < 256 ->
+  exists p, artnet_build seq phys addr net f = Some p /\
+            artnet_handle p net addr old = R2 (RHandled (expect_artnet f)).
+Proof.
+  intros H1 H2 Ha Hn.
+  destruct (artnet_roundtrip_gen seq phys addr net addr f old H1 H2 Ha Hn) as (p & B & R).
+  exists p. split; [exact B|]. rewrite R, N.eqb_refl. reflexivity.
 Qed.
 
 (* ------------------------------------------------------------------ one packed PDU is unpacked *)
